@@ -14,7 +14,7 @@ use std::sync::Arc;
 pub const META: Meta = Meta {
     id: "C19",
     level: "exploration",
-    rule: "Exhaustive: every path of 1-4 segments (thorough: 1-5) over {a, sub, .., ., ..., ..a, a.., empty, secret, link} joined by '/', with and without a leading and a trailing slash, x Accept-Encoding {absent, gzip, identity, gzip;q=0, *} x auto_gzip on/off, against a generated tree (plain files incl. dot-heavy names, a.gz sibling, b + b.gz/ directory, c.gz without c, sub/ with a, a.gz and .gz, sub.gz, a symlink to a secret file outside the base); NUL injected at every byte position of every path. Oracle: reference path validator written from the statement + std::fs on the same tree (device/inode identity or same io::ErrorKind), reference gzip negotiation. Non-trivial = accepted path that opens a file with a dot-only-looking segment or a .gz decision involved, or a rejected path; distinct by (path, Accept-Encoding, auto_gzip).",
+    rule: "Exhaustive: every path of 1-4 segments (thorough: 1-5) over {a, sub, .., ., ..., ..a, a.., empty, secret, link} joined by '/', with and without a leading and a trailing slash, x Accept-Encoding {absent, gzip, identity, gzip;q=0, *} x auto_gzip on/off, against a generated tree (plain files incl. dot-heavy names, a.gz sibling, b + b.gz/ directory, c.gz without c, sub/ with a, a.gz and .gz, sub.gz, a symlink to a secret file outside the base, .gz siblings that are symlinks to a character device, to a directory, and dangling); NUL injected at every byte position of every path. Oracle: reference path validator written from the statement + std::fs on the same tree (device/inode identity or same io::ErrorKind), reference gzip negotiation. Non-trivial = accepted path that opens a file with a dot-only-looking segment or a .gz decision involved, or a rejected path; distinct by (path, Accept-Encoding, auto_gzip).",
     assumptions: &[
         "what the empty path names is ambiguous (openat(\"\") vs. the directory itself): it is checked for containment only",
         "symlinks are followed, as documented; the symlink in the tree is the only way to the file outside the base",
@@ -60,6 +60,16 @@ pub fn make_tree(tag: &str) -> Tree {
         w(&base.join(n), s);
     }
     std::os::unix::fs::symlink("../secret", base.join("link")).unwrap();
+    // .gz siblings that are neither regular files nor directories (a symlink to a character
+    // device): "exists and is not a directory", so they are substituted.
+    w(&base.join("d"), "plain d");
+    std::os::unix::fs::symlink("/dev/null", base.join("d.gz")).unwrap();
+    std::os::unix::fs::symlink("/dev/null", base.join("e.gz")).unwrap();
+    // a .gz sibling that is a symlink to a directory, and one that dangles
+    w(&base.join("f"), "plain f");
+    std::os::unix::fs::symlink("sub", base.join("f.gz")).unwrap();
+    w(&base.join("g"), "plain g");
+    std::os::unix::fs::symlink("no-such-target", base.join("g.gz")).unwrap();
     let md = std::fs::metadata(root.join("secret")).unwrap();
     Tree {
         base: base.to_str().unwrap().to_string(),
@@ -264,7 +274,7 @@ pub fn run(cx: &Cx) -> Acc {
         rt.shutdown_background();
     }));
     // Named files of the tree, directly (gz decisions on every file).
-    let named: Vec<&str> = vec!["a", "b", "c", "c.gz", "a.gz", "sub", "sub/a", "sub/", "sub/.gz", "sub.gz", "...", "..a", "a..", "link", "b.gz", "b.gz/", "missing", "a/x", "sub/missing", "....gz", "sub/./a", "./a", "sub//a"];
+    let named: Vec<&str> = vec!["a", "b", "c", "c.gz", "a.gz", "sub", "sub/a", "sub/", "sub/.gz", "sub.gz", "...", "..a", "a..", "link", "b.gz", "b.gz/", "missing", "a/x", "sub/missing", "....gz", "sub/./a", "./a", "sub//a", "d", "e", "d.gz", "f", "g", "a.gz.gz", "sub/a.gz"];
     acc.merge(par_units(cx, "named", &named, true, "every named node of the tree x Accept-Encoding x auto_gzip", |cx, p, acc| {
         let tree = make_tree(&format!("c19n-{}", fingerprint(p)));
         let rt = tokio::runtime::Builder::new_multi_thread().worker_threads(1).max_blocking_threads(2).build().expect("runtime");
